@@ -32,3 +32,11 @@ pub(crate) fn emit(event: u8, addr: usize, mode: u8) {
 pub(crate) fn point() {
   emit(1, 0, 0);
 }
+
+/// Verification seam H9: lets a dependent crate (fibre_cache) report a lock of its own that is not
+/// a hybrid lock (the `LoadFuture` state lock) to the same callback, with the event/mode encoding
+/// documented on [`LockHook`].
+#[inline]
+pub fn lock_event(event: u8, addr: usize, mode: u8) {
+  emit(event, addr, mode);
+}
